@@ -766,10 +766,20 @@ pub fn run_c14<H: HB>(tier: Tier) -> Outcome {
                 cs.aux = Some((b.root.0, b.root.1.clone(), b.ops()));
                 cs
             })?;
+            crate::crash::set_case(|| {
+                let mut cs = crate::post::node_case(prop, a, &universe, None, "clone_from-pair", String::new());
+                cs.aux = Some((b.root.0, b.root.1.clone(), b.ops()));
+                cs
+            });
+            crate::post::clone_from_pair(&a.q, &b.q, &universe).map_err(|e| {
+                let mut cs = crate::post::node_case(prop, a, &universe, None, "clone_from-pair", e);
+                cs.aux = Some((b.root.0, b.root.1.clone(), b.ops()));
+                cs
+            })?;
         }
         Ok(c)
     });
-    absorb_post(&mut out, "== / != on all ordered pairs of explored states of the same kind (all arrangements, capacities, histories)", cases, viol, t0, json!({"states": nodes.len()}));
+    absorb_post(&mut out, "== / != and target.clone_from(&source) on all ordered pairs of explored states of the same kind (all arrangements, capacities, histories)", cases, viol, t0, json!({"states": nodes.len()}));
     if !out.violations.is_empty() {
         return out;
     }
